@@ -53,6 +53,10 @@ bool MatrixMul::is_canonical(const RCP<const Basic> &scalar,
     size_t num_diag = 0;
     size_t num_dense = 0;
     for (auto factor : factors) {
+        if (is_a<IdentityMatrix>(*factor) and factors.size() == 1) {
+            // scalar * I of symbolic size
+            continue;
+        }
         if (is_a<ZeroMatrix>(*factor) || is_a<IdentityMatrix>(*factor)
             || is_a<MatrixMul>(*factor)) {
             return false;
@@ -260,7 +264,19 @@ RCP<const MatrixExpr> matrix_mul(const vec_basic &factors)
         return rcp_static_cast<const MatrixExpr>(keep[0]);
     }
     if (keep.size() == 0 && !ident.is_null()) {
-        return ident;
+        if (eq(*scalar, *one)) {
+            return ident;
+        }
+        // a scalar multiple of the identity
+        const RCP<const Basic> &n = ident->size();
+        if (is_a<Integer>(*n)
+            and down_cast<const Integer &>(*n).as_integer_class() <= 1000) {
+            vec_basic diag_entries(
+                mp_get_ui(down_cast<const Integer &>(*n).as_integer_class()),
+                scalar);
+            return diagonal_matrix(diag_entries);
+        }
+        keep.push_back(ident);
     }
     return make_rcp<const MatrixMul>(scalar, keep);
 }
